@@ -125,7 +125,7 @@ class UFault(object):
        short_send   sendto reports one byte less
        lost         the datagram that would have arrived is lost (select times out)
        rfoff        the datagram b"RFOFF" arrives instead
-       raw(bytes)   exactly these bytes arrive instead"""
+       raw(bytes)   exactly these bytes arrive instead     cut(k)  only the first k bytes of the datagram arrive"""
 
     def __init__(self, at, kind, arg=0):
         self.at, self.kind, self.arg = at, kind, arg
@@ -238,6 +238,8 @@ class FakeSelectModule2(object):
                 net.inbox[0] = b"RFOFF"
             elif f.kind == "raw" and net.inbox:
                 net.inbox[0] = bytes(f.arg)
+            elif f.kind == "cut" and net.inbox:          # only the first k bytes of the datagram arrive
+                net.inbox[0] = net.inbox[0][:max(0, min(f.arg, len(net.inbox[0]) - 1))]
         if net.inbox:
             return list(r), [], []
         if timeout is None:
